@@ -382,7 +382,10 @@ def shard(ctx, arg):
                 pad.add_field("A%05d" % i, "I", W.ACC_STATIC | W.ACC_PUBLIC)
                 pad.add_method("A%05d" % i, "V", (), W.ACC_PUBLIC | W.ACC_NATIVE, None)
             ctx.count("big_index_cases")
-        datas = [W.write_dex(m) for m in models]
+        wopts = None
+        if rng.random() < 0.2:
+            wopts = {"string_data_order": __import__("random").Random(rng.getrandbits(32))}     # string data items not in pool order
+        datas = [W.write_dex(m, wopts) for m in models]
         class_to_dex = {c.name: i for i, p in enumerate(parts) for c in p}
         wit = {"classes": [(c.name, c.sfields, c.ifields, [(m.key, m.sites) for m in c.methods]) for c in classes][:4], "dex_files": len(datas), "class_to_dex": class_to_dex, "padding_fields_and_methods_before_the_program": big}
         ctx.ev()
